@@ -647,7 +647,7 @@ func (c *VCtx) release(fr *Frame, st *State, lock *Term, pos token.Pos) {
 		sc := c.objScope(m, st, m.entry)
 		for i, inv := range m.spec.Invs {
 			g := c.translateBool(sc, inv.E)
-			c.proveP(m.spec.Props, fmt.Sprintf("cs%d.inv.%s.%s", c.csCount, m.spec.Type, clauseLabel(inv, i)),
+			c.proveOnly(inv.Props, clauseProps(inv, m.spec.Props), fmt.Sprintf("cs%d.inv.%s.%s", c.csCount, m.spec.Type, clauseLabel(inv, i)),
 				fmt.Sprintf("object invariant of %s restored at unlock (%s): %s", m.spec.Type, c.eng.pos(pos), inv.Src), st.pc, g)
 		}
 		for i, tr := range m.spec.Trans {
@@ -665,6 +665,14 @@ func (c *VCtx) release(fr *Frame, st *State, lock *Term, pos token.Pos) {
 }
 
 // proveP is prove with extra property tags (the object's properties).
+// proveOnly: like proveP, but a clause tagged with its own properties counts for exactly those.
+func (c *VCtx) proveOnly(only, extra []string, kind, desc string, guard, goal *Term) {
+	c.proveP(extra, kind, desc, guard, goal)
+	if len(only) > 0 {
+		c.obls[len(c.obls)-1].Props = append([]string{}, only...)
+	}
+}
+
 func (c *VCtx) proveP(extra []string, kind, desc string, guard, goal *Term) {
 	c.prove(kind, desc, guard, goal, nil)
 	o := c.obls[len(c.obls)-1]
@@ -791,9 +799,16 @@ func (c *VCtx) acquireNoHavoc(fr *Frame, st *State, lock *Term) {
 		h.specs = append(h.specs, &monitorRef{spec: sp, obj: o.obj, objT: o.typ})
 	}
 	st.held[lock.S] = h
+	breaks := ""
+	if fr != nil && fr.contract != nil {
+		breaks = " " + fr.contract.Opts["breaks"] + " "
+	}
 	for _, m := range h.specs {
 		sc := c.objScope(m, st, st)
 		for _, inv := range m.spec.Invs {
+			if strings.Contains(breaks, " "+inv.Label+" ") {
+				continue // the helper may be called while this invariant is broken; it restores it
+			}
 			c.fact(Implies(st.pc, c.translateBool(sc, inv.E)))
 		}
 		m.entry = st.clone()
